@@ -276,7 +276,9 @@ class _World:
             return
         for key, j in ((ATTR_KEY, b), (ATTR_KEY2, b + self.n)) if self.twin else ((ATTR_KEY, b),):
             a = self.case["items"][j]["attr"]
-            d[key] = list(a) if isinstance(a, list) else a
+            # list-valued attributes may be handed over as tuples ("as_tuple"): GraphCluster reads every non-str value as a
+            # multiset (sorted(value)); BatchCluster must read it the same way (/repo fix after 6f9daf3, see known_findings.d)
+            d[key] = (tuple(a) if self.case["items"][j].get("as_tuple") else list(a)) if isinstance(a, list) else a
 
     def use(self, idx):
         O = self.obj(idx)
@@ -2027,4 +2029,12 @@ def gen_cases(tier, rng):
     step = max(1, len(rest) // (len(heavy) + 1))
     for k, c in enumerate(heavy):
         rest.insert(min(len(rest), (k + 1) * step + k), c)
+    # list-valued pre-grouping attributes handed over as tuples (all items, or a random half: list vs tuple of the same multiset)
+    for c in rest:
+        if c["attr_mode"] == "list" and rng.random() < 0.3:
+            every = rng.random() < 0.5
+            for it in c["items"]:
+                if every or rng.random() < 0.5:
+                    it["as_tuple"] = True
+            c["kind"] += "+tuple-attr"
     return rest
